@@ -14,6 +14,7 @@ for d in $VERIF/seeded/*/; do
   id=$(basename "$d")
   case "$id" in *"$filter"*) ;; *) continue;; esac
   [ -f "$d/patch.diff" ] || continue
+  [ -f "$d/demo.rs" ] || continue   # plain mutants (S-*, S3-*) have no demo: tools/verify_small.sh
   prop=${id%%-*}
   out="$d/verify.txt"; : > "$out"
   cd $W && git checkout -q -- . && git clean -qfd tests examples 2>/dev/null
